@@ -337,12 +337,24 @@ def generate(cls, rng):
               multi=rng.random() < 0.4, other=other, other_form=other_form,
               dormant=rng.choice([None, None, "after", "before"]),
               decor=rng.random() < 0.3,
+              # first onset year: 1990, or (rarely) 9990, so that the probed
+              # years run up to 9999, the last one a datetime can hold
+              y0=9990 if rng.random() < 0.04 else 1990,
               rrule_spelling=rng.choice([0, 0, 0, 1, 2, 3]),
               prop_order=rng.choice([0, 0, 0, 1, 2, 3, 4, 5]),
               calendars=rng.choice(["one", "one", "one", "each"]),
               fwd=rng.choice([0, 0, 0, 6, rng.randrange(7)]),
               blank_ids=rng.random() < 0.3,
-              source=rng.choice(["stringio", "stringio", "path", "crlf"]))
+              source=rng.choice(["stringio", "stringio", "path", "crlf",
+                                 "shortstream"]))
+    if sc["y0"] != 1990:
+        # plain unbounded rules only, no component three centuries ahead
+        sc.update(form="rrule", other_form="rrule", dormant=None,
+                  nyears=min(nyears, 8))
+        for sp in (sc["spec"], sc["other"]):
+            for r in (sp["start"], sp["end"]):
+                if r[-1] >= 86400:
+                    r[-1] = 82800
     if cls == "hist":
         pool = [gen_query(rng, nyears) for _ in range(rng.choice([3, 12, 14,
                                                                   20]))]
@@ -359,7 +371,7 @@ def generate(cls, rng):
                      for _ in range(rng.choice(DP.pick([1, 2, 2, 3],
                                                        [2, 3, 4, 4])))]
     kind = rng.choice(["random", "random", "pb", "pct", "pbx", "pbx"])
-    if rng.random() < 0.5:
+    if rng.random() < 0.5 and sc["y0"] == 1990:
         # cold start: every thread's first query races on components whose
         # recurrence caches are still empty and complete within one fill
         spec, form = gen_zone_spec(rng, rng.choice(["rdate", "rrule_count", "rrule_until"]))
@@ -440,6 +452,10 @@ def build_text(sc):
 class ZoneUnderTest(object):
     def __init__(self, ctx, sc):
         from dateutil import tz
+        global Y0
+        Y0 = sc.get("y0", 1990)
+        if Y0 != 1990:
+            ctx.probe("onsets_up_to_year_9999")
         self.tz = tz
         self.ctx = ctx
         self.sc = sc
@@ -483,6 +499,10 @@ class ZoneUnderTest(object):
             ical = tz.tzical("/sim/cal/zones.ics")
             if self.world.fs.open_handles:
                 self.ctx.violation("C17.handle_leak", dict())
+        elif sc.get("source") == "shortstream":
+            # a text stream that delivers legal short reads
+            from dsim.simfs import ShortTextStream
+            ical = tz.tzical(ShortTextStream(self.text, len(self.text)))
         else:
             ical = tz.tzical(io.StringIO(self.text))
         if sc.get("multi"):
@@ -511,7 +531,7 @@ class ZoneUnderTest(object):
     # -- model ---------------------------------------------------------------
     def instant(self, q):
         _, yo, which, delta, mode = q
-        a, b = PX.transitions_utc(self.spec, Y0 + max(yo, 0))
+        a, b = PX.transitions_utc(self.spec, min(Y0 + max(yo, 0), 9999))
         ts = (a if which == "start" else b) + delta
         if yo < 0:
             ts = self.first_any - 86400 * 200 * (-yo)
@@ -522,7 +542,7 @@ class ZoneUnderTest(object):
         wall times of the gap modes that is the onset the gap belongs to, not
         the (unused) delta-shifted instant."""
         if q[4].startswith("gap"):
-            a, _b = PX.transitions_utc(self.spec, Y0 + max(q[1], 0))
+            a, _b = PX.transitions_utc(self.spec, min(Y0 + max(q[1], 0), 9999))
             return a
         return self.instant(q)
 
@@ -544,7 +564,7 @@ class ZoneUnderTest(object):
         elif mode.startswith("gap"):
             # an imaginary wall time: inside the hour (or so) skipped when
             # daylight time starts in that year
-            a, _b = PX.transitions_utc(self.spec, Y0 + max(q[1], 0))
+            a, _b = PX.transitions_utc(self.spec, min(Y0 + max(q[1], 0), 9999))
             sav = self.spec["dstoff"] - self.spec["stdoff"]
             wall = EPOCH + datetime.timedelta(
                 seconds=a + self.spec["stdoff"] + (abs(q[3]) % sav))
